@@ -9,6 +9,7 @@ import (
 	channeltypes "github.com/cosmos/ibc-go/v8/modules/core/04-channel/types"
 
 	fxtypes "github.com/functionx/fx-core/v8/types"
+	erc20types "github.com/functionx/fx-core/v8/x/erc20/types"
 	ibcmwtypes "github.com/functionx/fx-core/v8/x/ibc/middleware/types"
 
 	"fxverif/c18/tok"
@@ -47,6 +48,7 @@ func (e *env) ibcRecvCases() []string {
 		sender               string
 		raw                  []byte // overrides the packet data
 		disableOwn           bool
+		garblePair           bool // the stored token-pair record of the voucher's pair cannot be decoded: reading it PANICS
 		parseOK, transferOK, hookOK bool
 	}
 	call := func(to string) string { return tok.MemoCall(c, to, nil, 0) }
@@ -76,6 +78,11 @@ func (e *env) ibcRecvCases() []string {
 		{name: "hook:memo-out-of-gas", denom: "uown", amt: "10", receiver: hexU, memo: call(e.cLoop.Hex()), parseOK: true, transferOK: true, hookOK: false},
 		{name: "hook:fx-memo-revert", denom: fxBack, amt: "10", receiver: bechU, memo: call(e.cWriteRevert.Hex()), parseOK: true, transferOK: true, hookOK: false},
 		{name: "hook:memo-call-sender-without-account", denom: "uown", amt: "10", receiver: hexU, memo: call(e.cWriteStop.Hex()), sender: "remote1nobody", parseOK: true, transferOK: true, hookOK: false},
+		// the follow-up PANICS after the transfer module has credited (undecodable pair record: MustUnmarshal in GetTokenPair).
+		// A panic is not an acknowledgement: the MsgRecvPacket transaction fails, nothing is written
+		{name: "hook:panic:pair-record-undecodable", denom: "uown", amt: "10", receiver: hexU, garblePair: true, parseOK: true, transferOK: true, hookOK: false},
+		{name: "hook:panic:pair-record-undecodable+memo-call-ok", denom: "uown", amt: "10", receiver: hexU, memo: call(e.cWriteStop.Hex()), garblePair: true, parseOK: true, transferOK: true, hookOK: false},
+		{name: "hook:panic:pair-record-undecodable+memo-text", denom: "uown", amt: "7", receiver: hexU, memo: "thanks", garblePair: true, parseOK: true, transferOK: true, hookOK: false},
 		{name: "ok:own-hex", denom: "uown", amt: "10", receiver: hexU, parseOK: true, transferOK: true, hookOK: true},
 		{name: "ok:own-hex-memo-text", denom: "uown", amt: "10", receiver: hexU, memo: "hello", parseOK: true, transferOK: true, hookOK: true},
 		{name: "ok:own-hex-memo-call", denom: "uown", amt: "10", receiver: hexU, memo: call(e.cWriteStop.Hex()), parseOK: true, transferOK: true, hookOK: true},
@@ -97,10 +104,27 @@ func (e *env) ibcRecvCases() []string {
 		if s.raw != nil {
 			pkt.Data = s.raw
 		}
+		if s.garblePair {
+			p, found := c.App.Erc20Keeper.GetTokenPair(B, own.Base)
+			if !found {
+				panic("pair of the own voucher not found")
+			}
+			B.KVStore(c.App.GetKey(erc20types.StoreKey)).Set(append(append([]byte{}, erc20types.KeyPrefixTokenPair...), p.GetID()...), []byte{0xff, 0xff, 0xff, 0xff})
+		}
 		pre := c.DumpAll(B)
-		ok, _ := tok.CoreRecv(c, B, pkt, relayer)
+		ok, _, panicked := tok.CoreRecvTx(c, B, pkt, relayer)
 		diff := lib.DiffDumps(pre, c.DumpAll(B))
 		changed := len(diff) > 0
+		if s.garblePair && panicked == nil && (ok || changed) {
+			// the designated outcome of a panicking follow-up on this code: the transaction fails (an error acknowledgement with
+			// nothing written would honour the property as well; a success acknowledgement or any write left does not)
+			e.failSig(lib.Failure{Kind: "monitor", Sig: "C18:ibcrecv:" + s.name + ":panic-acknowledged",
+				What:   fmt.Sprintf("the follow-up of an inbound packet panicked after the transfer module had credited, and the packet was acknowledged (success=%v) instead of failing the transaction", ok),
+				Replay: map[string]interface{}{"scenario": s.name, "ack_success": ok, "diff(-pre,+post)": diff}})
+		}
+		if panicked != nil {
+			e.rep.Count("ibcrecv:" + s.name + ":panicked")
+		}
 		// the follow-up of these packets fails by construction (no such pair, reverting callee, …): whatever the
 		// acknowledgement says, nothing the application wrote may stay
 		followUpFails := s.parseOK && s.transferOK && !s.hookOK
@@ -111,6 +135,16 @@ func (e *env) ibcRecvCases() []string {
 		}
 		e.rep.Case("ibcrecv:"+s.name, s.parseOK && s.transferOK && !s.hookOK)
 		e.rep.Count(fmt.Sprintf("ibcrecv:%s:ack=%v", s.name, ok))
+		if s.garblePair {
+			cls := 3
+			if panicked == nil && ok {
+				cls = 1
+			} else if panicked == nil {
+				cls = 2
+			}
+			out = append(out, fmt.Sprintf("mk_recv_case_panic %s %s %s %d %s", lib.Bool(s.parseOK), lib.Bool(s.transferOK), lib.Bool(s.hookOK), cls, lib.Bool(changed)))
+			continue
+		}
 		out = append(out, fmt.Sprintf("mk_recv_case %s %s %s %s %s", lib.Bool(s.parseOK), lib.Bool(s.transferOK), lib.Bool(s.hookOK), lib.Bool(ok), lib.Bool(changed)))
 	}
 	return out
